@@ -706,6 +706,12 @@ func (g *Gen) evalCall(ctx *specCtx, x *ECall) Val {
 		}
 		return BoolV{eq(iv.Tag, fmt.Sprint(id))}
 	case "held":
+		if sel, ok := x.Args[0].(*ESel); ok && ctx.st != nil {
+			if base, ok := g.evalSpec(ctx, sel.X).(PtrV); ok && base.Cell == nil && ctx.st.unpub[base.Ref] {
+				// an object this path allocated and has not handed on: exclusive access stands for the lock
+				return BoolV{"true"}
+			}
+		}
 		return BoolV{g.heldTerm(ctx.st, g.heldKeyOfExpr(ctx, x.Args[0]))}
 	case "int":
 		return arg(0)
